@@ -61,6 +61,30 @@ def ensure_gosum():
         f.write(content)
 
 
+GEN_CATALOGUE = None  # (seed, n): which generated catalogue of named types to build with
+
+
+def gen_catalogue(outdir, go, env, modflag):
+    """Writes the generated catalogue of named Go types for this run (a pure function
+    of seed and n) next to the binaries and returns a -overlay file that puts it in
+    place of harness/cat/zz_named_gen.go; the committed file (seed 1, n 240) is never
+    rewritten, so concurrent runs with different seeds do not disturb each other."""
+    seed, n = GEN_CATALOGUE or (1, 240)
+    gen = os.path.join(outdir, "zz_named_gen.go")
+    ov = os.path.join(outdir, "overlay.json")
+    if os.path.exists(ov):
+        return ov
+    cmd = [go, "run"] + modflag + ["./gencat", "-seed", str(seed), "-n", str(n), "-o", gen]
+    p = subprocess.run(cmd, cwd=HARNESS, env=env, stdout=subprocess.PIPE, stderr=subprocess.STDOUT, text=True)
+    if p.returncode != 0 or not os.path.exists(gen):
+        print(p.stdout)
+        print("INCONCLUSIVE: the generator of named catalogue types failed")
+        cleanup_build()
+        sys.exit(2)
+    json.dump({"Replace": {os.path.join(HARNESS, "cat", "zz_named_gen.go"): gen}}, open(ov, "w"))
+    return ov
+
+
 def build(race=False, fuzz=False):
     """Compile the checks package against /repo's current working tree."""
     go, env = goenv()
@@ -72,6 +96,7 @@ def build(race=False, fuzz=False):
         return out
     cmd = [go, "test", "-c", "-tags", "verif", "-o", out]
     alt = os.environ.get("VERIF_REPO")
+    modflag = []
     if alt:
         # sensitivity runs only: build against a scratch copy of the library
         # (a mutated worktree) instead of /repo. Registered commands never set this.
@@ -79,7 +104,9 @@ def build(race=False, fuzz=False):
         mod = open(os.path.join(HARNESS, "go.mod")).read().replace("=> /repo", "=> " + os.path.abspath(alt))
         open(modfile, "w").write(mod)
         shutil.copy(os.path.join(HARNESS, "go.sum"), os.path.join(outdir, "alt.sum"))
-        cmd.append("-modfile=" + modfile)
+        modflag = ["-modfile=" + modfile]
+        cmd += modflag
+    cmd.append("-overlay=" + gen_catalogue(outdir, go, env, modflag))
     if race:
         cmd.append("-race")
     if fuzz:
@@ -364,7 +391,18 @@ def replay_file(binary, path, quiet=False, race_binary=None):
     return failed, p.stdout
 
 
+def set_catalogue_from_case(case):
+    """A stored case that names a generated catalogue type is replayed against the catalogue it was drawn from."""
+    global GEN_CATALOGUE
+    try:
+        a, b = str(case.get("gen_catalogue", "")).split("/")
+        GEN_CATALOGUE = (int(a), int(b))
+    except Exception:
+        pass
+
+
 def main():
+    global GEN_CATALOGUE
     args = sys.argv[1:]
     if not args:
         print(__doc__)
@@ -395,12 +433,13 @@ def main():
         print("replay: case passes")
         return 0
     if args[0] == "--replay":
-        binary = build()
         case = {}
         try:
             case = json.load(open(args[1]))
         except Exception:
             pass
+        set_catalogue_from_case(case)
+        binary = build()
         rb = build(race=True) if case.get("property") == "C12" else None
         failed, text = replay_file(binary, args[1], race_binary=rb)
         print(text)
@@ -421,6 +460,7 @@ def main():
     except ValueError:
         seed = 1
     t0 = time.time()
+    GEN_CATALOGUE = (seed, 600 if tier == "thorough" else 240)
     need_race = any(u.get("race") for u in cfg["units"])
     need_plain = any(not u.get("race") for u in cfg["units"]) or True
     binary = build() if need_plain else None
